@@ -10,7 +10,7 @@ package props
 var sharedRules = map[string]map[string][]string{
 	"C01": {
 		"C02": {"PAIR.release", "PROV.nullid", "RUN.guard", "TABLE.null", "TABLE.space", "WHO.filter"},
-		"C03": {"PAIR.barrier"},
+		"C03": {"PAIR.barrier", "WHO.queue"},
 		"C06": {"PAIR.sem"},
 		"C07": {"PAIR.reserve"},
 		"C10": {"PROV.errmap"},
@@ -19,6 +19,7 @@ var sharedRules = map[string]map[string][]string{
 	"C02": {
 		"C01": {"PAIR.countdown", "PAIR.noteerr", "PROV.errmap"},
 		"C07": {"PAIR.release"},
+		"C08": {"RUN.restart"},
 		"C09": {"TABLE.request", "TOKEN.write"},
 		"C12": {"TABLE.dataeof"},
 	},
@@ -28,10 +29,14 @@ var sharedRules = map[string]map[string][]string{
 	"C04": {
 		"C01": {"PROV.batchflag"},
 		"C02": {"TABLE.space"},
-		"C05": {"TABLE.ctxerr", "TOKEN.stop"},
+		"C05": {"PROV.settle", "TABLE.ctxerr", "TOKEN.stop"},
+		"C13": {"PROV.errimmutable"},
 	},
 	"C05": {
 		"C04": {"LOCK.atomicRMW", "TOKEN.register"},
+	},
+	"C06": {
+		"C01": {"PAIR.barrier"},
 	},
 	"C07": {
 		"C01": {"PROV.batchflag"},
@@ -60,9 +65,10 @@ var sharedRules = map[string]map[string][]string{
 	},
 	"C13": {
 		"C02": {"TABLE.null"},
+		"C04": {"PROV.order"},
 		"C06": {"PAIR.sem"},
 		"C14": {"EFFECT.pure", "ERR.propagate", "PROV.errimmutable"},
-		"C18": {"PAIR.ids"},
+		"C18": {"PAIR.ids", "PROV.encoder"},
 	},
 	"C14": {
 		"C01": {"PAIR.invoke", "PAIR.join"},
@@ -73,15 +79,16 @@ var sharedRules = map[string]map[string][]string{
 		"C16": {"PAIR.positional"},
 	},
 	"C16": {
-		"C15": {"PAIR.wrap", "PROV.invalidparams"},
+		"C15": {"PAIR.length", "PAIR.wrap", "PROV.invalidparams"},
 	},
 	"C17": {
 		"C01": {"PAIR.countdown", "WHO.filter"},
 		"C06": {"WHO.builtin"},
 		"C10": {"PROV.encoder"},
+		"C19": {"PROV.params"},
 	},
 	"C18": {
-		"C01": {"PAIR.countdown"},
+		"C01": {"PAIR.countdown", "TABLE.space"},
 		"C02": {"WHO.filter"},
 		"C04": {"PAIR.loop"},
 		"C06": {"PAIR.sem"},
